@@ -262,7 +262,13 @@ def _interpret(res, text, c):
             # if several recs are touched (precondition of callee + call site), the caller is where label is empty or
             # 'at this call' ; choose the rec containing a non-primary span if message is a precondition failure
             r = cand[0][0]
-            if "precondition" in msg:
+            # the failing function is the one that contains the PRIMARY span (the call site for a failed precondition,
+            # the failed clause for a postcondition - both lie inside the emitted text of the function being verified)
+            for (rr, sp) in cand:
+                if sp.get("is_primary"):
+                    r = rr
+                    break
+            if "postcondition" in msg:
                 for (rr, sp) in cand:
                     if not sp.get("is_primary"):
                         r = rr
